@@ -31,6 +31,13 @@ def value_of(tree: Tree, m: Module, e: ast.AST, env: Dict[str, Any]):
     d = dotted(e)
     if d is not None and d in env:
         return env[d]
+    if env and not isinstance(e, (ast.Name, ast.Constant)):
+        try:
+            txt = " ".join(ast.unparse(e).split())
+        except Exception:
+            txt = None
+        if txt is not None and txt in env:
+            return env[txt]
     try:
         return fold(e)
     except NotConst:
